@@ -85,7 +85,7 @@ func AsString(v Value) (String, bool) {
 // Hash computes a hash for a String.
 func (s String) Hash(seed uintptr) uintptr {
 	// TODO: implement a []rune-friendly hash function.
-	return hash.String(string(s.s), seed)
+	return hash.String(string(s.s), hash.Int(s.offset, seed))
 }
 
 // Equal tests two Sets for equality. Any other type returns false.
